@@ -25,6 +25,13 @@
 // queries are derived from that handle - the compared one and a sibling adding joins / preloads /
 // conditions of its own (same relations under other conditions included), derived before or after
 // it and executed before it or not at all.
+//
+// A third root model, Org (5 of 16 operations), has relations inside EMBEDDED structs (models.go): a
+// belongs-to Home of its own and belongs-to relations of the same name in a named embedded struct and
+// in a second one embedded in the first, has-many / has-one with names unique in the model on the
+// embedded levels, relations in anonymously embedded structs (S1), value / pointer embedding and
+// every declaration order. Preload names them by their embedded path, Joins / Association().Find /
+// sometimes Preload by the plain name; Preload(clause.Associations) must load all of them.
 package c11
 
 import (
@@ -60,10 +67,23 @@ func (n *loadNode) child(name string) *loadNode {
 	return k
 }
 
+// dir is one Preload / Joins directive. path is the CANONICAL relation path (relation names as in the
+// reference model, an embedded relation by its embedded path); what gorm is given is gormArg.
 type dir struct {
 	path  string
 	c     *cond
 	inner bool
+	plain bool // Preload: the first relation is addressed by its plain name (embedded relation with a unique name)
+}
+
+// gormArg is the path as handed to gorm: Joins (and Preload with plain set) name the first relation
+// by its plain name, Preload by its embedded path.
+func gormArg(root *model, path string, plain bool) string {
+	first := splitPath(root, path)[0]
+	if plain && first.plain() != "" {
+		return first.plain() + strings.TrimPrefix(path, first.name)
+	}
+	return path
 }
 
 type op struct {
@@ -127,29 +147,31 @@ type step struct {
 	apply func(*gorm.DB) *gorm.DB
 }
 
-func joinStep(d dir) step {
+func joinStep(root *model, d dir) step {
 	fn := "Joins"
 	if d.inner {
 		fn = "InnerJoins"
 	}
-	desc := fmt.Sprintf(".%s(%q", fn, d.path)
+	arg := gormArg(root, d.path, true)
+	desc := fmt.Sprintf(".%s(%q", fn, arg)
 	if d.c != nil {
 		desc += ", " + d.c.String()
 	}
 	return step{kind: "join", desc: desc + ")", apply: func(db *gorm.DB) *gorm.DB {
 		if d.inner {
-			return db.InnerJoins(d.path, d.c.args()...)
+			return db.InnerJoins(arg, d.c.args()...)
 		}
-		return db.Joins(d.path, d.c.args()...)
+		return db.Joins(arg, d.c.args()...)
 	}}
 }
 
-func preloadStep(d dir) step {
-	desc := fmt.Sprintf(".Preload(%q", d.path)
+func preloadStep(root *model, d dir) step {
+	arg := gormArg(root, d.path, d.plain)
+	desc := fmt.Sprintf(".Preload(%q", arg)
 	if d.c != nil {
 		desc += ", " + d.c.String()
 	}
-	return step{kind: "preload", desc: desc + ")", apply: func(db *gorm.DB) *gorm.DB { return db.Preload(d.path, d.c.args()...) }}
+	return step{kind: "preload", desc: desc + ")", apply: func(db *gorm.DB) *gorm.DB { return db.Preload(arg, d.c.args()...) }}
 }
 
 func filterStep(table string, us []int64) step {
@@ -173,7 +195,7 @@ func (o *op) steps() []step {
 		out = append(out, unscopedStep())
 	}
 	for _, d := range o.joins {
-		out = append(out, joinStep(d))
+		out = append(out, joinStep(o.root, d))
 	}
 	if o.all {
 		desc := ".Preload(clause.Associations"
@@ -184,7 +206,7 @@ func (o *op) steps() []step {
 		out = append(out, step{kind: "all", desc: desc + ")", apply: func(db *gorm.DB) *gorm.DB { return db.Preload(clause.Associations, c.args()...) }})
 	}
 	for _, d := range o.preloads {
-		out = append(out, preloadStep(d))
+		out = append(out, preloadStep(o.root, d))
 	}
 	if o.dup {
 		out = append(out, step{kind: "dup", desc: fmt.Sprintf(`.Joins("JOIN %s ON 1 = 1")`, dupTable), apply: func(db *gorm.DB) *gorm.DB { return db.Joins("JOIN " + dupTable + " ON 1 = 1") }})
@@ -202,10 +224,10 @@ func (o *op) steps() []step {
 func (sb *sibling) steps(root *model) []step {
 	var out []step
 	for _, d := range sb.joins {
-		out = append(out, joinStep(d))
+		out = append(out, joinStep(root, d))
 	}
 	for _, d := range sb.preloads {
-		out = append(out, preloadStep(d))
+		out = append(out, preloadStep(root, d))
 	}
 	if sb.filter != nil {
 		out = append(out, filterStep(root.table, sb.filter))
@@ -235,7 +257,7 @@ func applyAll(db *gorm.DB, steps []step) *gorm.DB {
 func genSibling(r *core.Rand, ds *dataset, o *op) *sibling {
 	sb := &sibling{first: r.Bool(), exec: r.Bool()}
 	if o.kind == "assoc-find" {
-		sb.relName = core.Pick(r, o.root.rels).name
+		sb.relName = core.Pick(r, addressable(o.root)).name
 		if r.Bool() {
 			sb.relName = o.relName
 		}
@@ -271,7 +293,7 @@ func genSibling(r *core.Rand, ds *dataset, o *op) *sibling {
 	if len(o.joins) > 0 || r.Chance(1, 4) {
 		for i, n := 0, r.Range(1, 2); i < n; i++ {
 			var d dir
-			if d = core.Pick(r, append([]dir{{path: "."}}, own...)); !strings.Contains(d.path, ".") && r.Bool() {
+			if d = core.Pick(r, append([]dir{{}}, own...)); d.path != "" && depthOf(o.root, d.path) == 1 && r.Bool() {
 				// a relation the compared chain joins itself, under another condition (or none)
 				d.c = nil
 				if r.Chance(2, 3) {
@@ -279,7 +301,7 @@ func genSibling(r *core.Rand, ds *dataset, o *op) *sibling {
 				}
 			} else {
 				d = dir{path: walk(r, o.root, core.Pick(r, []int{1, 1, 2, 3}), true)}
-				if !strings.Contains(d.path, ".") && r.Chance(1, 3) {
+				if d.path != "" && depthOf(o.root, d.path) == 1 && r.Chance(1, 3) {
 					d.c = genCond(r, "join-on")
 				}
 			}
@@ -395,7 +417,7 @@ func usOfRowsUnsorted(rows []*row) []int64 {
 func (s staleRec) build(m *model) reflect.Value {
 	p := fill(m, s.rw)
 	for name, rows := range s.rels {
-		f := p.Elem().FieldByName(name)
+		f := fieldAt(p.Elem(), m.rel(name).goPath(), true)
 		tm := m.rel(name).target
 		switch f.Kind() {
 		case reflect.Slice:
@@ -481,7 +503,8 @@ func walk(r *core.Rand, m *model, depth int, singleOnly bool, skip ...func(*rel)
 	for d := 0; d < depth; d++ {
 		var cands []*rel
 		for _, rl := range m.rels {
-			if (!singleOnly || rl.single) && !(len(skip) > 0 && skip[0](rl)) {
+			// (singleOnly: a path for Joins, whose first relation must have a plain name)
+			if (!singleOnly || (rl.single && rl.plain() != "")) && !(len(skip) > 0 && skip[0](rl)) {
 				cands = append(cands, rl)
 			}
 		}
@@ -496,10 +519,22 @@ func walk(r *core.Rand, m *model, depth int, singleOnly bool, skip ...func(*rel)
 }
 
 func targetOf(m *model, path string) *model {
-	for _, s := range strings.Split(path, ".") {
-		m = m.rel(s).target
+	for _, rl := range splitPath(m, path) {
+		m = rl.target
 	}
 	return m
+}
+
+// addressable lists the relations of m that Association() can name (all of them but the embedded
+// relations shadowed by an own relation of the same name).
+func addressable(m *model) []*rel {
+	var out []*rel
+	for _, rl := range m.rels {
+		if rl.plain() != "" {
+			out = append(out, rl)
+		}
+	}
+	return out
 }
 
 func commonSegments(a, b string) int {
@@ -527,8 +562,12 @@ func genOp(r *core.Rand, ds *dataset) *op {
 	w := ds.w
 	o := &op{}
 	o.root = w.node
-	if r.Chance(1, 4) {
+	switch x := r.Intn(16); {
+	case x < 3:
 		o.root = w.item
+	case x < 8:
+		// relations in embedded structs, next to an own relation of the same name
+		o.root = w.org
 	}
 	switch x := r.Intn(20); {
 	case x < 8:
@@ -564,7 +603,7 @@ func genOp(r *core.Rand, ds *dataset) *op {
 			for i := 0; i < n; i++ {
 				o.parents = append(o.parents, core.Pick(r, all))
 			}
-			o.relName = core.Pick(r, o.root.rels).name
+			o.relName = core.Pick(r, addressable(o.root)).name
 			o.dest = core.Pick(r, []string{"slice", "ptrslice"})
 			if r.Chance(1, 3) {
 				o.findCond = genCond(r, "args", "map")
@@ -627,6 +666,17 @@ func genOp(r *core.Rand, ds *dataset) *op {
 		if allowCond && r.Chance(1, 3) {
 			d.c = genCond(r, preloadForms...)
 		}
+		// an embedded relation whose name is unique in the model: sometimes by that plain name (one name
+		// per relation and query: gorm keeps an entry per NAME, each loading the relation field anew)
+		if first := splitPath(o.root, path)[0]; first.plain() != "" && first.plain() != first.name {
+			// (never next to Preload(clause.Associations), which names embedded relations by their path)
+			d.plain = r.Chance(1, 4) && !o.all
+			for _, e := range o.preloads {
+				if splitPath(o.root, e.path)[0] == first {
+					d.plain = e.plain
+				}
+			}
+		}
 		o.preloads = append(o.preloads, d)
 	}
 	switch o.kind {
@@ -641,7 +691,7 @@ func genOp(r *core.Rand, ds *dataset) *op {
 			o.allCond = genCond(r, "args", "map", "scope")
 		}
 		if r.Chance(1, 2) {
-			if p := walk(r, o.root, r.Range(2, 3), false); strings.Contains(p, ".") {
+			if p := walk(r, o.root, r.Range(2, 3), false); p != "" && depthOf(o.root, p) >= 2 {
 				addPreload(p, true)
 			}
 		}
@@ -675,7 +725,7 @@ func genOp(r *core.Rand, ds *dataset) *op {
 		}
 		// ON conditions: on depth-1 joins that no other joined path runs through
 		for i, d := range o.joins {
-			if strings.Contains(d.path, ".") {
+			if depthOf(o.root, d.path) > 1 {
 				continue
 			}
 			free := true
@@ -737,15 +787,15 @@ func (o *op) tree() *loadNode {
 	}
 	for _, d := range o.joins {
 		n := t
-		for _, s := range strings.Split(d.path, ".") {
-			n = n.child(s)
+		for _, rl := range splitPath(o.root, d.path) {
+			n = n.child(rl.name)
 		}
 		n.c = d.c
 	}
 	for _, d := range o.preloads {
 		n := t
-		for _, s := range strings.Split(d.path, ".") {
-			n = n.child(s)
+		for _, rl := range splitPath(o.root, d.path) {
+			n = n.child(rl.name)
 		}
 		if d.c != nil {
 			n.c = d.c
@@ -790,8 +840,8 @@ func (o *op) desc() string {
 			sb.WriteString(".Unscoped()")
 		}
 		if o.sib != nil {
-			own := fmt.Sprintf("q := base.Association(%q); ", o.relName)
-			sib := fmt.Sprintf("sib := base.Association(%q); ", o.sib.relName)
+			own := fmt.Sprintf("q := base.Association(%q); ", o.root.rel(o.relName).plain())
+			sib := fmt.Sprintf("sib := base.Association(%q); ", o.root.rel(o.sib.relName).plain())
 			sb.WriteString(".Session(&gorm.Session{}); ")
 			if o.sib.first {
 				sb.WriteString(sib + own)
@@ -807,7 +857,7 @@ func (o *op) desc() string {
 			}
 			fmt.Fprintf(&sb, "q.Find(&%s", o.dest)
 		} else {
-			fmt.Fprintf(&sb, ".Association(%q).Find(&%s", o.relName, o.dest)
+			fmt.Fprintf(&sb, ".Association(%q).Find(&%s", o.root.rel(o.relName).plain(), o.dest)
 		}
 		if o.findCond != nil {
 			sb.WriteString(", " + o.findCond.String())
@@ -906,7 +956,10 @@ func renderField(v reflect.Value) string {
 // scalars compares the scalar columns of a loaded record with the inserted row.
 func (k *checker) scalars(m *model, got reflect.Value, want *row, where string, rl *rel) {
 	for _, cl := range m.cols {
-		g := renderField(got.FieldByName(cl.field))
+		g := "NULL" // (a column of a pointer-embedded struct that is nil)
+		if f := fieldAt(got, cl.goPath(), false); f.IsValid() {
+			g = renderField(f)
+		}
 		w := renderVal(want.vals[cl.name])
 		if g != w {
 			k.add(rl, "%s: column %s loaded as %s, inserted row has %s", where, cl.name, g, w)
@@ -982,11 +1035,18 @@ func sameInts(a, b []int64) bool {
 // reused: got is a destination that held earlier content before the call; relation fields that
 // were not requested keep whatever they held (not fixed by the statement: not compared).
 func (k *checker) record(m *model, got reflect.Value, want *row, t *loadNode, where string, via *rel, reused bool, path ...string) {
+	n0 := len(k.problems)
 	k.scalars(m, got, want, where, via)
+	for i := n0; i < len(k.problems); i++ {
+		k.problems[i].path = strings.Join(path, ".")
+	}
 	for _, rl := range m.rels {
-		f := got.FieldByName(rl.name)
+		f := fieldAt(got, rl.goPath(), false)
 		w := fmt.Sprintf("%s.%s", where, rl.name)
-		kids := k.kidsOf(f, w, rl)
+		var kids []reflect.Value
+		if f.IsValid() {
+			kids = k.kidsOf(f, w, rl)
+		}
 		var sub *loadNode
 		if t != nil {
 			sub = t.kids[rl.name]
@@ -998,6 +1058,10 @@ func (k *checker) record(m *model, got reflect.Value, want *row, t *loadNode, wh
 			continue
 		}
 		k.relKinds[string(rl.kind)]++
+		if m.groups != nil {
+			// relations of a model with embedded structs, by the number of named embedding levels above them
+			k.relKinds[fmt.Sprintf("on_embedding_level_%d", rl.level)]++
+		}
 		exp := k.ds.expected(rl, want, sub.c, k.unscoped)
 		if rl.single && len(exp) > 1 && len(kids) == 1 {
 			// lifted scope, several candidates for a single-valued relation (never joined, see genOp):
@@ -1033,9 +1097,8 @@ func (k *checker) record(m *model, got reflect.Value, want *row, t *loadNode, wh
 
 // resolves reports whether an inner-joined path exists for parent p.
 func (ds *dataset) resolves(m *model, p *row, d dir, unscoped bool) bool {
-	segs := strings.Split(d.path, ".")
-	for i, s := range segs {
-		rl := m.rel(s)
+	segs := splitPath(m, d.path)
+	for i, rl := range segs {
 		var c *cond
 		if i == len(segs)-1 {
 			c = d.c
@@ -1085,11 +1148,11 @@ func (ds *dataset) parentsOf(o *op) []*row {
 func fill(m *model, rw *row) reflect.Value {
 	p := reflect.New(m.typ)
 	for _, cl := range m.cols {
-		f := p.Elem().FieldByName(cl.field)
 		v := rw.vals[cl.name]
 		if v == nil {
 			continue
 		}
+		f := fieldAt(p.Elem(), cl.goPath(), true)
 		x := reflect.ValueOf(v)
 		if cl.ptr {
 			np := reflect.New(f.Type().Elem())
@@ -1166,17 +1229,17 @@ func execOp(ds *dataset, o *op) *checker {
 			base := adb.Session(&gorm.Session{})
 			var sa *gorm.Association
 			if o.sib.first {
-				sa = base.Association(o.sib.relName)
-				assoc = base.Association(o.relName)
+				sa = base.Association(o.root.rel(o.sib.relName).plain())
+				assoc = base.Association(rl.plain())
 			} else {
-				assoc = base.Association(o.relName)
-				sa = base.Association(o.sib.relName)
+				assoc = base.Association(rl.plain())
+				sa = base.Association(o.root.rel(o.sib.relName).plain())
 			}
 			if o.sib.exec {
 				sa.Find(reflect.New(reflect.SliceOf(o.root.rel(o.sib.relName).target.typ)).Interface(), o.sib.cond.args()...)
 			}
 		} else {
-			assoc = adb.Association(o.relName)
+			assoc = adb.Association(rl.plain())
 		}
 		err := assoc.Find(out.Interface(), o.findCond.args()...)
 		if err != nil {
@@ -1184,6 +1247,9 @@ func execOp(ds *dataset, o *op) *checker {
 			return k
 		}
 		k.relKinds[string(rl.kind)]++
+		if o.root.groups != nil {
+			k.relKinds[fmt.Sprintf("on_embedding_level_%d", rl.level)]++
+		}
 		kids := k.kidsOf(out.Elem(), "result", rl)
 		// the rows of ANY of the given parents, each once (set union over the distinct parents)
 		var exp []*row
@@ -1346,6 +1412,25 @@ func execOp(ds *dataset, o *op) *checker {
 // signature of a failed operation: a specific one for the recognised classes of genuine
 // deviation, else the (single) hazard class measured on the relations involved, else generic.
 func signature(ds *dataset, o *op, k *checker) string {
+	sig := signature0(ds, o, k)
+	if o.root.groups == nil || strings.HasPrefix(sig, "panic") {
+		return sig
+	}
+	// a root model with relations in embedded structs: classes of their own
+	for _, p := range k.problems {
+		if strings.HasPrefix(p.msg, "error:") {
+			return "error:" + o.kind + ":model-with-embedded-relations"
+		}
+	}
+	for _, p := range k.problems {
+		if p.rl != nil && p.rl.owner == o.root && p.rl.level > 0 {
+			return sig + ":embedded-relation"
+		}
+	}
+	return sig + ":model-with-embedded-relations"
+}
+
+func signature0(ds *dataset, o *op, k *checker) string {
 	var rels []*rel
 	for _, p := range k.problems {
 		if strings.HasPrefix(p.msg, "panic: reflect: call of reflect.Value.Field on zero Value") && o.dest == "struct" {
@@ -1403,6 +1488,58 @@ func signature(ds *dataset, o *op, k *checker) string {
 		return "mixed-key-hazards"
 	}
 	return "mismatch:" + o.kind
+}
+
+// embeddedClass names the two recognised classes of failure that need a relation in an embedded
+// struct (checked before any counterfactual attribution; "" otherwise):
+//
+//	embedded-relation-not-preloaded:join-of-same-name   every deviating relation field is an embedded
+//	    relation that the query preloads (itself or a path through it) while it JOINS another relation
+//	    of the model with the same field name (the own Home joined, Site.Home / Site.Geo.Home preloaded);
+//	    into a reused struct also the columns of / relations below the record that field still holds
+//	assoc-all-reloads-embedded-relation:nested-preload-lost   Preload(clause.Associations) next to a nested
+//	    Preload through an embedded relation that also has a plain name: every deviating relation
+//	    field lies BELOW that embedded relation
+func embeddedClass(o *op, k *checker) string {
+	if o.root.groups == nil || o.kind == "assoc-find" || len(k.problems) == 0 {
+		return ""
+	}
+	bare := func(rl *rel) string { p := rl.goPath(); return p[len(p)-1] }
+	joinClass, allClass := true, o.all
+	for _, p := range k.problems {
+		if p.rl == nil || p.path == "" {
+			return ""
+		}
+		e := splitPath(o.root, p.path)[0]
+		if e.level == 0 {
+			return ""
+		}
+		preloaded := false
+		for _, d := range o.preloads {
+			preloaded = preloaded || isPrefixOrEqual(e.name, d.path)
+		}
+		joined := false
+		for _, j := range o.joins {
+			if f := splitPath(o.root, j.path)[0]; f != e && f.plain() == bare(e) {
+				joined = true
+			}
+		}
+		// (a reused struct keeps the earlier record in the relation field: when that happens to be the right
+		// row, what deviates are its stale columns and the relations below it)
+		joinClass = joinClass && preloaded && joined && (p.path == e.name || (o.reuse && o.dest == "struct" && isPrefixOrEqual(e.name, p.path)))
+		extended := false
+		for _, d := range o.preloads {
+			extended = extended || strings.HasPrefix(d.path, e.name+".")
+		}
+		allClass = allClass && p.path != e.name && e.plain() != "" && extended
+	}
+	switch {
+	case joinClass:
+		return "embedded-relation-not-preloaded:join-of-same-name"
+	case allClass:
+		return "assoc-all-reloads-embedded-relation:nested-preload-lost"
+	}
+	return ""
 }
 
 func anyAllZero(rows []*row, cols []string) bool {
@@ -1556,6 +1693,21 @@ func run(c *core.Ctx) {
 		if o.dup {
 			c.Inc("ops_with_duplicate_parents")
 		}
+		if o.root.groups != nil {
+			c.Inc("ops_on_model_with_embedded_relations_" + o.kind)
+			for _, d := range o.joins {
+				if splitPath(o.root, d.path)[0].level > 0 {
+					c.Inc("joins_of_embedded_relation_by_plain_name")
+				}
+			}
+			for _, d := range o.preloads {
+				if d.plain {
+					c.Inc("preloads_of_embedded_relation_by_plain_name")
+				} else if l := splitPath(o.root, d.path)[0].level; l > 0 {
+					c.Inc(fmt.Sprintf("preloads_by_embedded_path_level_%d", l))
+				}
+			}
+		}
 		if o.reuse {
 			c.Inc("ops_into_reused_" + o.dest)
 		}
@@ -1604,7 +1756,11 @@ func run(c *core.Ctx) {
 			// attribute to a reused destination / a reused handle / Unscoped() / several parents only
 			// counterfactually: the first single dimension whose removal makes the call agree
 			attributed := false
-			if o.reuse {
+			if cls := embeddedClass(o, k); cls != "" {
+				attributed = true
+				sig = cls
+			}
+			if !attributed && o.reuse {
 				fresh := *o
 				fresh.reuse, fresh.pre = false, nil
 				if kf := safeExec(ds, &fresh); len(kf.problems) == 0 {
@@ -1665,6 +1821,9 @@ func run(c *core.Ctx) {
 					detail["counterfactual"] = "the same call for each of the parents alone (same container shape) agrees with the reference join"
 				}
 			}
+			if o.root.groups != nil && !strings.Contains(sig, "embedded") {
+				sig += ":model-with-embedded-relations"
+			}
 			c.Inc("sig_" + sig)
 			c.Violation(sig, detail)
 			continue
@@ -1679,7 +1838,7 @@ func run(c *core.Ctx) {
 				if d.c != nil {
 					f = d.c.form
 				}
-				paths = append(paths, "P:"+d.path+":"+f)
+				paths = append(paths, "P:"+d.path+":"+f+fmt.Sprint(d.plain))
 			}
 			sort.Strings(paths)
 			b := k.attached
@@ -1709,6 +1868,7 @@ var Engine = &core.Engine{
 		"SHARED handle: 1/4 of the other operations (1/2 of those with 3+ joins) split their chain at a random step - with several joins mostly between the joins, half of the time before the last join, so the handle carries 0-7 joins - : base := db.<first steps>.Session(&gorm.Session{}); q := base.<remaining steps>; sib := base.<1-2 joins: a relation q joins itself under another / no ON condition, or another path; 0-2 Preloads: a path q preloads itself under another condition, or another path; Where; Unscoped()>, q and sib derived in either order, sib executed before q or never; q is compared (Association().Find: base := db.Model(parents).Session(..), q/sib := base.Association(rel / same or other rel), sib.Find with another condition); a failure that disappears when the chain is built in one go is signed sibling-on-shared-session-handle:<preload|joins|assoc-find|parents|parents-of-inner-joins>; " +
 		"a failure that disappears with a fresh destination is signed stale-on-reused-destination:<dest>:<preload|joins|assoc-find>[:<relation kind>[:no-owner-key]], one that disappears on the first execution second-execution-of-session-handle:<kind>, one that disappears without the sibling sibling-on-shared-session-handle:*, " +
 		"one that disappears without Unscoped() unscoped:<preload|joins|assoc-find|parents|parents-of-inner-joins>, an Association().Find on several parents that agrees for each parent alone assoc-find-several-parents:<relation kind>[:composite-key] (tried in this order); " +
+		"ROOT MODEL: Node (8/16 of the operations), Item (3/16) or Org (5/16): a soft-delete model whose relations partly live in EMBEDDED structs - Org.Home (its OWN belongs-to Node), Org.Site.Home and Org.Site.Geo.Home (belongs-to relations of the SAME name in a named embedded struct `embedded;embeddedPrefix:site_` and in a second one embedded in the first: two embedding levels), Org.Site.Crew (has-many Node: Node.boss = the Site key) and Org.Site.Geo.Card (has-one Card: Card.node = the Geo key; I1: Site.Card, so that Geo holds nothing but a relation named like one of Site), S1 also Site.Annex (relation in a struct embedded ANONYMOUSLY in Site) and Mentor (anonymously embedded in the Org); every level has a key tuple of the world's key type drawn like a foreign key aimed at the nodes (existing / dangling / NULL / partially NULL / zero part); shapes per world: own Home declared before / after Site, Site.Home before / after Geo, Geo embedded by value / by pointer (II), the outer struct called Site or Base (IS: plain relation names then sort after the struct's name), explicit foreignKey tags with per-level field names or none with the same field name HomeA on both embedded levels (I1), pointer / value key parts; Preload names an embedded relation by its embedded path (\"Site.Geo.Home\", nested paths continue into the Node family), the plain name Home is the model's own relation for Preload, Joins and Association(); Crew / Card / Annex (unique names) are joined and given to Association() by their plain name, and preloaded by it in 1/4 of the cases (one name per relation and query); Preload(clause.Associations) must load the relations of every level; reused destinations, sessions, siblings, Unscoped as for the other roots; failures on this root are signed <class>:embedded-relation (a deviating relation of an embedded level) | <class>:model-with-embedded-relations | error:<kind>:model-with-embedded-relations, and two recognised classes embedded-relation-not-preloaded:join-of-same-name (the query joins a relation, e.g. the own Home, and preloads an embedded relation with the same field name, which stays empty) and assoc-all-reloads-embedded-relation:nested-preload-lost (Preload(clause.Associations) next to a nested Preload through an embedded relation with a unique name: the rows below it are missing); " +
 		"distinct = (world, operation kind, root, relation paths with condition forms, destination, finisher, reused flag, second-execution flag, duplicate flag, attached-children bucket, Unscoped flag, shape of the Association() parent value, several parents, shared-handle flag); non-trivial = at least one child row was attached where the reference join expects it",
 	Assumptions: []string{
 		"a record whose referenced key parts are ALL zero-valued (0 / '') is never generated as a match target: gorm treats an all-zero key as 'no key' (GetIdentityFieldValuesMap skips it); keys with SOME zero part are generated",
@@ -1723,6 +1883,7 @@ var Engine = &core.Engine{
 		"the non-primary key k is unique among all rows of the table (soft-deleted ones included), never zero and never NULL",
 		"SQLite semantics of equality: binary, case- and space-sensitive text comparison; NULL equals nothing",
 		"join-table rows never contain NULL; key columns of parents are never NULL",
+		"relations in embedded structs: an embedded relation shadowed by the model's own relation of the same name is addressed by its embedded path only (Preload); an embedded relation whose name is unique in the model is also addressed by its plain name (the only name Joins and Association() resolve); within one query a relation is preloaded under ONE name (plain or embedded path; gorm keeps one entry per name and each loads the field anew), and never by its plain name next to Preload(clause.Associations); an own foreign key field with the same NAME as a foreign key field of an embedded struct is not generated (which field gorm's naming convention / a foreignKey tag picks for the own relation is schema parsing, not part of this property: observed on the unchanged tree to be the LAST declared field of that name, i.e. the embedded one); all-zero non-NULL key tuples of an Org level are not generated (referenced key of has-many / has-one)",
 		"order of attached children is not compared (multiset by unique row id u, then every scalar column and nested relation per row)",
 	},
 	Cases: func(tier string) int {
